@@ -152,6 +152,9 @@ class Pool:
         self.ctx = mp.get_context("fork")
         self.nproc = nproc
         self.workers = []
+        self.executed_by = {}      # worker number -> case indices in the order that worker was given them
+        self.worker_of = {}        # case index -> worker number
+        self._nworkers = 0
 
     def _spawn(self):
         parent, child = self.ctx.Pipe()
@@ -159,7 +162,14 @@ class Pool:
         p = self.ctx.Process(target=_worker, args=(self.mod, self.tier, self.case_list, child, cur), daemon=True)
         p.start()
         child.close()
-        return {"p": p, "conn": parent, "cur": cur, "chunk": None}
+        self._nworkers += 1
+        self.executed_by[self._nworkers] = []
+        return {"p": p, "conn": parent, "cur": cur, "chunk": None, "no": self._nworkers}
+
+    def history_before(self, idx):
+        """the cases the worker that executed case idx had been given before it, in order"""
+        seq = self.executed_by.get(self.worker_of.get(idx), [])
+        return seq[:seq.index(idx)] if idx in seq else []
 
     def run(self, order, chunk, deadline, on_result, on_crash):
         """order: list of indices (contiguous runs are chunked)."""
@@ -187,8 +197,13 @@ class Pool:
                 w["chunk"] = queue.popleft()
                 if w["chunk"][0] == "one":
                     w["conn"].send(("one", w["chunk"][1], self.case_list[w["chunk"][1]]))
+                    given = [w["chunk"][1]]
                 else:
                     w["conn"].send(w["chunk"])
+                    given = list(range(w["chunk"][0], w["chunk"][1]))
+                self.executed_by[w["no"]].extend(given)
+                for gi in given:
+                    self.worker_of[gi] = w["no"]
                 pending += 1
             if not pending:
                 break
@@ -260,12 +275,17 @@ def load_known(prop):
     return known, fixed
 
 
-def _run_single(mod_name, tier, case, q):
+def _run_single(mod_name, tier, case, q, before=()):
     try:
         import importlib
         mod = importlib.import_module(mod_name)
         if hasattr(mod, "setup_worker"):
             mod.setup_worker(tier)
+        for c0 in before:          # (confirmation of a history-dependent violation: what the pool worker had executed before)
+            try:
+                mod.run_case(c0)
+            except BaseException:
+                pass
         try:
             r = mod.run_case(case) or {}
         except BaseException as e:
@@ -279,14 +299,14 @@ def _run_single(mod_name, tier, case, q):
         q.put(("error", traceback.format_exc()))
 
 
-def confirm(mod, tier, case, sig):
+def confirm(mod, tier, case, sig, before=()):
     """Re-execute the offending case twice, each in a fresh process: the same signature with the
-    same observation must come back both times."""
+    same observation must come back both times.  `before`: cases to execute first in that process (results ignored)."""
     ctx = mp.get_context("spawn")
     seen = []
     for _ in range(2):
         q = ctx.Queue()
-        p = ctx.Process(target=_run_single, args=(mod.__name__, tier, case, q))
+        p = ctx.Process(target=_run_single, args=(mod.__name__, tier, case, q, list(before)))
         p.start()
         res = None
         t_end = time.time() + 900
@@ -351,6 +371,11 @@ def main(mod):
             rep = json.load(f)
         if hasattr(mod, "setup_worker"):
             mod.setup_worker(rep.get("tier", "quick"))
+        for c0 in rep.get("needs_process_history") or ():      # the violation needs what the same process executed before
+            try:
+                mod.run_case(c0)
+            except BaseException:
+                pass
         try:
             r = mod.run_case(rep["case"]) or {}
         except BaseException as e:
@@ -438,6 +463,7 @@ def main(mod):
     known_matched = []
     rep_dir = os.path.join(OUT, "replays", prop)
     new_sigs = sorted(s for s in viol if s not in known)
+    history_note = {}
     for sig in sorted(viol):
         e = viol[sig]
         case = case_list[e["idx"]]
@@ -454,18 +480,30 @@ def main(mod):
             ok = all(s[0] == "ok" and s[1] for s in seen) and seen[0] == seen[1]
             crash_ok = ":crash:" in sig and all(s[0] == "crash" for s in seen)
             if not (ok or crash_ok):
-                print("harness error: violation %s of case #%d did not reproduce identically in fresh processes: %r" % (sig, e["idx"], seen))
-                return 2
+                # Not reproducible alone: does it depend on what the same process had executed before?  Replay the cases the pool worker
+                # had been given before this one, then the case, in fresh processes.  A result that needs that history is still a result
+                # of the code under test (state kept between calls), reported with the history recorded in the replay file.
+                hist_idx = pool.history_before(e["idx"])
+                seen_h = confirm(mod, tier, case, sig, before=[case_list[i] for i in hist_idx]) if hist_idx else seen
+                ok_h = all(s[0] == "ok" and s[1] for s in seen_h) and [x[0] for x in seen_h[0][1]] == [x[0] for x in seen_h[1][1]]
+                if not ok_h:
+                    print("harness error: violation %s of case #%d did not reproduce in fresh processes, neither alone %r nor after the %d cases its worker had executed before"
+                          % (sig, e["idx"], seen, len(hist_idx)))
+                    return 2
+                history_note[sig] = [jsonable(case_list[i]) for i in hist_idx]
         os.makedirs(rep_dir, exist_ok=True)
         fn = os.path.join(rep_dir, "".join(ch if ch.isalnum() or ch in "-_.=" else "_" for ch in sig)[:150] + ".json")
         with open(fn, "w") as f:
             json.dump({"property": prop, "driver": getattr(mod, "DRIVER", ""), "tier": tier, "signature": sig,
                        "what": e["rec"].get("what"), "case": jsonable(case), "expected": jsonable(e["rec"].get("expected")),
                        "observed": jsonable(e["rec"].get("observed")), "cases_with_this_signature": e["count"],
-                       "fixed_entry_reappeared": sig in fixed}, f, indent=1)
+                       "fixed_entry_reappeared": sig in fixed,
+                       "needs_process_history": history_note.get(sig)}, f, indent=1)
         if shown < MAX_VIOLATION_LINES:
             lines.append("VIOLATION property=%s replay=%s" % (prop, fn))
-            lines.append("  signature=%s cases=%d what=%s" % (sig, e["count"], str(e["rec"].get("what"))[:300]))
+            lines.append("  signature=%s cases=%d what=%s%s" % (sig, e["count"], str(e["rec"].get("what"))[:300],
+                                                             " [reproduces only after the %d cases the same process had executed before: state kept between calls]"
+                                                             % len(history_note[sig]) if sig in history_note else ""))
             shown += 1
         exit_code = 1
 
